@@ -1,4 +1,4 @@
-import GixModel.Lemmas.C24
+import GixModel.Lemmas.C24Ext
 /-
 C24 — Index files decode to exactly what git wrote, for any thread limit.  PROPERTY THEOREMS ONLY.
 
@@ -128,44 +128,93 @@ example : (∀ b ∈ [[sampleEntry 3], [sampleEntry 4095, sampleEntry 4096], [sa
     | (rcases he with rfl | rfl <;> exact sampleEntry_wf _)
     | (subst he; exact sampleEntry_wf _)
 
-/-! ### the file-level statement -/
+/-! ### the file level -/
 
-/-- the extensions git writes after the offset table, in git's order -/
-def gitExts (tree : Option Tree) (reuc : Option (List ReucPath)) (sparse : Bool) : List (Bytes × Bytes) :=
-  (match tree with | some t => [(sigTREE, gitEncodeTree t)] | none => []) ++
-  (match reuc with | some ps => [(sigREUC, gitEncodeReuc ps)] | none => []) ++
-  (if sparse then [(sigSdir, [])] else [])
+/-- The end-of-index entry is found where git put it: for a file `Q ++ extensions ++ EOIE ++
+trailer` (at least one extension before the EOIE) the decoder returns the offset of the first
+extension, for ANY hash function with 20-byte output. -/
+theorem eoie_offsets (sha1 : Bytes → Bytes) (hsha : ∀ x, (sha1 x).length = 20)
+    (Q T : Bytes) (exts : List (Bytes × Bytes)) (hne : exts ≠ []) (hok : ∀ sp ∈ exts, ExtOk sp)
+    (hq : 12 ≤ Q.length) (hq2 : Q.length < 4294967296) (ht : T.length = 20) :
+    eoieDecode sha1 (Q ++ (encodeExts exts ++ (eoieExt sha1 Q.length exts ++ T))) = some Q.length :=
+  eoieDecode_encoded sha1 hsha Q T exts hne hok hq hq2 ht
 
-mutual
-  /-- what gitoxide reports for a cache tree: children sorted by name, recursively -/
-  def canonTree : Tree → Tree
-    | .mk name id num cs => .mk name id num (sortByName (canonTrees cs))
-  def canonTrees : List Tree → List Tree
-    | [] => []
-    | t :: ts => canonTree t :: canonTrees ts
-end
+/-- The offset table round-trips. -/
+theorem ieot_roundtrip (offs : List Offset) (hne : offs ≠ []) (hok : ∀ o ∈ offs, OffsetOk o) :
+    ieotDecode (ieotPayload offs) = some offs :=
+  ieotDecode_payload offs hne hok
 
-/-- FULL file-level statement (kept as a definition: its entry/chunk/threading core is proved
-above as `entry_roundtrip_*`, `entries_roundtrip`, `parallel_eq_serial`,
-`thread_grouping_irrelevant`; the composition through header, EOIE/IEOT lookup and the TREE/REUC
-payload codecs is tied by the correspondence run and the git oracle, see the level note):
-for every thread limit, decoding the file git writes for `blocks` (+ cache tree, resolve-undo,
-sparse marker, optional offset table and end-of-index marker) yields exactly those entries and
-extension contents. Without an EOIE the trailing bytes must not look like one (inherent in the
-format: git has the same ambiguity). -/
-def C24_full : Prop :=
-  ∀ (sha1 : Bytes → Bytes) (version threads : Nat) (blocks : List (List Entry))
-    (recordIeot recordEoie sparse : Bool) (tree : Option Tree) (reuc : Option (List ReucPath)) (trailer : Bytes),
-    (version = 2 ∨ version = 3 ∨ version = 4) → 1 ≤ threads →
-    (∀ b ∈ blocks, AllWf b) → (∀ b ∈ blocks, PathsFit b) → trailer.length = hashLen →
-    let file := gitEncodeIndex sha1 version blocks recordIeot (gitExts tree reuc sparse) recordEoie trailer
-    file.length < 4294967296 →
-    (recordEoie = false → eoieDecode sha1 file = none) →
-    ∃ x : Exts,
-      fromBytes sha1 threads file =
-        .ok version blocks.flatten (isSparseEntries blocks.flatten || sparse) x
-          (if isNull trailer then none else some trailer) ∧
-      x.isSparse = sparse ∧ x.endOfIndex = recordEoie ∧ x.offsetTable = recordIeot ∧
-      x.reuc = reuc ∧ x.link = none
+/-- THE FILE: `State::from_bytes` (model) on the file git's writer produces — header, entries in
+any number of offset-table blocks, optional IEOT, any further extensions (`exts`, none of them
+another IEOT), optional EOIE, trailer — gives, for EVERY thread limit `threads ≥ 1`, the same
+outcome: the version, exactly the entries git stored, and whatever `decode::all` collects from
+the extension list. Without an EOIE the trailing bytes must not look like one (inherent in the
+format: git's reader has the same ambiguity). Files are below 4 GiB (offsets are `u32`). -/
+theorem file_roundtrip_any_exts (sha1 : Bytes → Bytes) (hsha : ∀ x, (sha1 x).length = 20) (version threads : Nat)
+    (ht : 1 ≤ threads) (blocks : List (List Entry)) (recordIeot : Bool) (exts : List (Bytes × Bytes))
+    (recordEoie : Bool) (trailer : Bytes)
+    (hv : version = 2 ∨ version = 3 ∨ version = 4)
+    (hwf : ∀ b ∈ blocks, AllWf b) (hfit : ∀ b ∈ blocks, PathsFit b) (htr : trailer.length = hashLen)
+    (hn : (blocks.map List.length).sum < 4294967296)
+    (hexts : ∀ sp ∈ exts, sp.1.length = 4 ∧ sp.1 ≠ sigIEOT)
+    (hsize : (gitEncodeIndex sha1 version blocks recordIeot exts recordEoie trailer).length < 4294967296)
+    (hno : recordEoie = false →
+      eoieDecode sha1 (gitEncodeIndex sha1 version blocks recordIeot exts recordEoie trailer) = none) :
+    fromBytes sha1 threads (gitEncodeIndex sha1 version blocks recordIeot exts recordEoie trailer) =
+      match extFold {} (indexExts sha1 version blocks recordIeot exts recordEoie) with
+      | .ok e => finish version blocks.flatten e trailer
+      | .err => .errExtension
+      | .panic => .panic :=
+  fromBytes_gitEncodeIndex sha1 hsha version threads ht blocks recordIeot exts recordEoie trailer hv hwf hfit htr hn
+    hexts hsize hno
+
+/-- … and with the extensions git writes (cache tree, resolve-undo, sparse marker): the entries,
+the sparse flag, the markers for offset table and end-of-index entry, the checksum — and for the
+cache tree and resolve-undo the result of their payload decoders on git's payloads (their
+contents: `reuc_roundtrip`; the cache tree's is tied by correspondence + `git write-tree`). -/
+theorem file_roundtrip (sha1 : Bytes → Bytes) (hsha : ∀ x, (sha1 x).length = 20) (version threads : Nat)
+    (ht : 1 ≤ threads) (blocks : List (List Entry)) (recordIeot recordEoie sparse : Bool)
+    (tree : Option Tree) (reuc : Option (List ReucPath)) (trailer : Bytes)
+    (hv : version = 2 ∨ version = 3 ∨ version = 4)
+    (hwf : ∀ b ∈ blocks, AllWf b) (hfit : ∀ b ∈ blocks, PathsFit b) (htr : trailer.length = hashLen)
+    (hn : (blocks.map List.length).sum < 4294967296)
+    (hsize : (gitEncodeIndex sha1 version blocks recordIeot (gitExts tree reuc sparse) recordEoie trailer).length
+      < 4294967296)
+    (hno : recordEoie = false →
+      eoieDecode sha1 (gitEncodeIndex sha1 version blocks recordIeot (gitExts tree reuc sparse) recordEoie trailer)
+        = none) :
+    fromBytes sha1 threads (gitEncodeIndex sha1 version blocks recordIeot (gitExts tree reuc sparse) recordEoie trailer)
+      = .ok version blocks.flatten (isSparseEntries blocks.flatten || sparse)
+          (expectedExts tree reuc sparse recordIeot recordEoie)
+          (if isNull trailer then none else some trailer) := by
+  rw [file_roundtrip_any_exts sha1 hsha version threads ht blocks recordIeot _ recordEoie trailer hv hwf hfit htr hn
+    (gitExts_sigs tree reuc sparse) hsize hno, extFold_gitExts]
+  simp only [finish, htr, ne_eq, not_true_eq_false, if_false, expectedExts]
+
+/-- The resolve-undo extension: what `resolve_undo_write` writes for any list of paths (names
+without NUL, three stages each, present stages with a non-zero 32-bit mode and a 20-byte id)
+decodes to exactly that list. -/
+theorem reuc_roundtrip (ps : List ReucPath) (hwf : ∀ p ∈ ps, WfReucPath p) :
+    reucDecode (gitEncodeReuc ps) = some ps :=
+  reucDecode_encoded ps hwf
+
+example : WfReucPath { name := [97, 47, 98], stages := [some (0o100644, List.replicate 20 1), none, some (0o100755, List.replicate 20 2)] } where
+  name_nul := by decide
+  three := rfl
+  stages := by
+    intro s hs
+    simp only [List.mem_cons, List.not_mem_nil, or_false] at hs
+    rcases hs with rfl | rfl | rfl <;> simp [WfStage, hashLen]
+
+/-- `file_roundtrip` with the resolve-undo content spelled out. -/
+theorem file_roundtrip_reuc (tree : Option Tree) (ps : List ReucPath) (hwf : ∀ p ∈ ps, WfReucPath p)
+    (sparse recordIeot recordEoie : Bool) :
+    (expectedExts tree (some ps) sparse recordIeot recordEoie).reuc = some ps := by
+  simp only [expectedExts, Option.bind_some, reucDecode_encoded ps hwf]
+
+-- non-vacuity of the file-level hypotheses: a version-4 file with two blocks, offset table and EOIE
+example : (gitEncodeIndex (fun _ => List.replicate 20 7) 4 [[sampleEntry 3], [sampleEntry 2]] true
+    (gitExts none none true) true (List.replicate 20 1)).length = 12 + 69 + 68 + (8 + 20) + 8 + 32 + 20 := by
+  decide +kernel
 
 end GixModel.Props.C24
